@@ -86,7 +86,7 @@ pub(crate) fn parse_directive(jsx_attr: &JSXAttr, is_component: bool) -> Directi
         if let Expr::Array(ArrayLit { elems, .. }) = &**expr {
             value = match elems.first() {
                 Some(Some(ExprOrSpread { spread: None, expr })) => (**expr).clone(),
-                _ => Expr::Ident(quote_ident!("").into()),
+                _ => undefined(),
             };
             if let Some(Some(ExprOrSpread { spread: None, expr })) = elems.get(1) {
                 match &**expr {
@@ -113,7 +113,7 @@ pub(crate) fn parse_directive(jsx_attr: &JSXAttr, is_component: bool) -> Directi
         }
     } else {
         modifiers = Some(splitted.map(Atom::from).collect());
-        value = Expr::Ident(quote_ident!("").into());
+        value = undefined();
     }
 
     Directive::Normal(NormalDirective {
@@ -150,6 +150,19 @@ fn lower_first(name: &str) -> String {
         }
         _ => name.to_string(),
     }
+}
+
+/// Value of a directive that was written without one: `void 0`.
+fn undefined() -> Expr {
+    Expr::Unary(UnaryExpr {
+        span: DUMMY_SP,
+        op: op!("void"),
+        arg: Box::new(Expr::Lit(Lit::Num(Number {
+            span: DUMMY_SP,
+            value: 0.0,
+            raw: None,
+        }))),
+    })
 }
 
 fn parse_modifiers(exprs: &[Option<ExprOrSpread>]) -> BTreeSet<Atom> {
@@ -249,7 +262,7 @@ fn parse_v_model_directive(
                     "You have to use JSX Expression inside your `v-model`.",
                 );
             });
-            Expr::Ident(quote_ident!("").into())
+            Expr::Ident(quote_ident!("undefined").into())
         }
     };
 
@@ -259,7 +272,15 @@ fn parse_v_model_directive(
     if let Expr::Array(ArrayLit { elems, .. }) = attr_value {
         value = match elems.first() {
             Some(Some(ExprOrSpread { spread: None, expr })) => (**expr).clone(),
-            _ => Expr::Ident(quote_ident!("").into()),
+            _ => {
+                HANDLER.with(|handler| {
+                    handler.span_err(
+                        jsx_attr.span,
+                        "The first item of the `v-model` array must be the expression to bind.",
+                    );
+                });
+                Expr::Ident(quote_ident!("undefined").into())
+            }
         };
         if let Some(Some(ExprOrSpread { spread: None, expr })) = elems.get(1) {
             match &**expr {
